@@ -176,8 +176,74 @@ Definition valid_def_keys : list string :=
    "@nest"; "@prefix"; "@protected"].
 Definition subset_def_keys : list string := ["@container"; "@id"; "@type"; "@context"; "@prefix"; "@protected"].
 
+(* the strings of a term definition that go through ExpandIri *)
+Definition id_string (v : json) : option string :=
+  match v with
+  | JStr s => Some s
+  | JObj m => match jget "@id" m with Some (JStr s) => Some s | _ => None end
+  | _ => None
+  end.
+Definition type_string (v : json) : option string :=
+  match v with
+  | JObj m => match jget "@type" m with Some (JStr s) => Some s | _ => None end
+  | _ => None
+  end.
+
+(* createTermDefinition for term t with value v, given the results idr / tyr of expanding
+   its @id / @type strings (same order of checks and error points as json-gold) *)
+Definition def_core (t : string) (v : json) (idr tyr : option (res string)) : res tdef :=
+  norm <- match v with
+          | JStr s => Ok (true, [("@id", JStr s)])
+          | JObj m => Ok (false, m)
+          | JNull => Err "subset:null-term"
+          | _ => Err "invalid-term-definition"
+          end ;;
+  let simple := fst norm in
+  let m := snd norm in
+  if is_keyword t then Err "keyword-redefinition"
+  else if keyword_like t then Err "subset:ignored-term"
+  else if has_colon t || has_slash t then Err "subset:iri-term"
+  else if negb (forallb (fun k => str_mem k valid_def_keys) (jkeys m)) then Err "invalid-term-definition"
+  else if negb (forallb (fun k => str_mem k subset_def_keys) (jkeys m)) then Err "subset:term-key"
+  else
+    match jget "@id" m with
+    | Some (JStr idStr) =>
+        if String.eqb idStr t then Err "invalid-iri-mapping"   (* no @vocab in the subset *)
+        else if negb (is_keyword idStr) && keyword_like idStr then Err "subset:ignored-term"
+        else
+          id <- match idr with Some r => r | None => Err "internal:no-id-string" end ;;
+          if negb (is_keyword id || is_abs_iri id) then Err "invalid-iri-mapping"
+          else if String.eqb id "@context" then Err "invalid-keyword-alias"
+          else
+            ty <- match jget "@type" m with
+                  | None => Ok None
+                  | Some (JStr ts) =>
+                      if str_mem ts ["@id"; "@vocab"; "@json"; "@none"] then Ok (Some ts)
+                      else
+                        match tyr with
+                        | Some (Ok e) => if negb (is_abs_iri e) || starts_with "_:" e
+                                         then Err "invalid-type-mapping" else Ok (Some e)
+                        | Some (Err tag) => Err tag
+                        | Some (Panic w) => Panic w
+                        | Some Diverge => Diverge
+                        | None => Err "internal:no-type-string"
+                        end
+                  | Some _ => Err "invalid-type-mapping"
+                  end ;;
+            pf <- match jget "@prefix" m with
+                  | None => Ok (simple && ends_with_gen_delim id)
+                  | Some (JBool b) => if is_keyword id then Err "invalid-term-definition" else Ok b
+                  | Some _ => Err "invalid-prefix-value"
+                  end ;;
+            Ok {| td_id := id; td_type := ty; td_ctx := jget "@context" m; td_prefix := pf |}
+    | Some JNull => Err "subset:null-term"
+    | Some _ => Err "invalid-iri-mapping"
+    | None => Err "invalid-iri-mapping"                      (* no colon in t, no @vocab *)
+    end.
+
 (* createTermDefinition(L, t): the definition term t gets.  Fuel bounds the
-   dependency chain inside L (a cycle = CyclicIRIMapping). *)
+   dependency chain inside L (a cycle = CyclicIRIMapping).  The expansions are
+   computed up front (Gallina is pure: same result as computing them on demand). *)
 Fixpoint def_of (n : nat) (T : terms) (L : members) (t : string) : res tdef :=
   match n with
   | O => Err "cyclic-iri-mapping"
@@ -185,52 +251,8 @@ Fixpoint def_of (n : nat) (T : terms) (L : members) (t : string) : res tdef :=
     match jget t L with
     | None => Err "internal:no-such-key"
     | Some v =>
-      norm <- match v with
-              | JStr s => Ok (true, [("@id", JStr s)])
-              | JObj m => Ok (false, m)
-              | JNull => Err "subset:null-term"
-              | _ => Err "invalid-term-definition"
-              end ;;
-      let '(simple, m) := norm in
-      if is_keyword t then Err "keyword-redefinition"
-      else if keyword_like t then Err "subset:ignored-term"
-      else if has_colon t || has_slash t then Err "subset:iri-term"
-      else if negb (forallb (fun k => str_mem k valid_def_keys) (jkeys m)) then Err "invalid-term-definition"
-      else if negb (forallb (fun k => str_mem k subset_def_keys) (jkeys m)) then Err "subset:term-key"
-      else
-        match jget "@id" m with
-        | Some (JStr idStr) =>
-            if String.eqb idStr t then Err "invalid-iri-mapping"   (* no @vocab in the subset *)
-            else if negb (is_keyword idStr) && keyword_like idStr then Err "subset:ignored-term"
-            else
-              id <- expand_in_ctx (def_of n' T L) T L idStr ;;
-              if negb (is_keyword id || is_abs_iri id) then Err "invalid-iri-mapping"
-              else if String.eqb id "@context" then Err "invalid-keyword-alias"
-              else
-                ty <- match jget "@type" m with
-                      | None => Ok None
-                      | Some (JStr ts) =>
-                          if str_mem ts ["@id"; "@vocab"; "@json"; "@none"] then Ok (Some ts)
-                          else
-                            match expand_in_ctx (def_of n' T L) T L ts with
-                            | Ok e => if negb (is_abs_iri e) || starts_with "_:" e
-                                      then Err "invalid-type-mapping" else Ok (Some e)
-                            | Err tag => Err tag
-                            | Panic w => Panic w
-                            | Diverge => Diverge
-                            end
-                      | Some _ => Err "invalid-type-mapping"
-                      end ;;
-                pf <- match jget "@prefix" m with
-                      | None => Ok (simple && ends_with_gen_delim id)
-                      | Some (JBool b) => if is_keyword id then Err "invalid-term-definition" else Ok b
-                      | Some _ => Err "invalid-prefix-value"
-                      end ;;
-                Ok {| td_id := id; td_type := ty; td_ctx := jget "@context" m; td_prefix := pf |}
-        | Some JNull => Err "subset:null-term"
-        | Some _ => Err "invalid-iri-mapping"
-        | None => Err "invalid-iri-mapping"                      (* no colon in t, no @vocab *)
-        end
+        def_core t v (option_map (expand_in_ctx (def_of n' T L) T L) (id_string v))
+                     (option_map (expand_in_ctx (def_of n' T L) T L) (type_string v))
     end
   end.
 
@@ -272,29 +294,32 @@ Definition parse_obj (T : terms) (m0 : members) : res terms :=
 Definition arrayify (j : json) : list json :=
   match j with JArr l => l | _ => [j] end.
 
+(* one member of the local-context array; rec = parse_terms for a remote context *)
+Definition parse_item (rec : terms -> json -> res terms) (ld : loader) (r : terms) (c : json) : res terms :=
+  match c with
+  | JNull => Ok []
+  | JStr url =>
+      match assoc String.eqb url ld with
+      | None => Err "loading-remote-context-failed"
+      | Some (JObj dm) =>
+          match jget "@context" dm with
+          | Some inner => rec r inner
+          | None => Err "invalid-remote-context"
+          end
+      | Some _ => Err "invalid-remote-context"
+      end
+  | JObj m => parse_obj r m
+  | _ => Err "invalid-local-context"
+  end.
+
 (* Context.parse, the term definitions: they do not depend on @propagate / previousContext.
    Fuel bounds the nesting of remote contexts.  A null context resets the term map. *)
 Fixpoint parse_terms (n : nat) (ld : loader) (T : terms) (lc : json) : res terms :=
   match n with
   | O => Diverge
   | S n' =>
-      fold_left (fun (acc : res terms) (c : json) =>
-        r <- acc ;;
-        match c with
-        | JNull => Ok []
-        | JStr url =>
-            match assoc String.eqb url ld with
-            | None => Err "loading-remote-context-failed"
-            | Some (JObj dm) =>
-                match jget "@context" dm with
-                | Some inner => parse_terms n' ld r inner
-                | None => Err "invalid-remote-context"
-                end
-            | Some _ => Err "invalid-remote-context"
-            end
-        | JObj m => parse_obj r m
-        | _ => Err "invalid-local-context"
-        end) (arrayify lc) (Ok T)
+      fold_left (fun (acc : res terms) (c : json) => r <- acc ;; parse_item (parse_terms n' ld) ld r c)
+                (arrayify lc) (Ok T)
   end.
 
 (* propagate: overridden by the @propagate member of the FIRST context object *)
